@@ -9,6 +9,7 @@ import (
 
 	"verifharness/execfam"
 	"verifharness/fpfam"
+	"verifharness/loadfam"
 	"verifharness/rep"
 )
 
@@ -25,6 +26,12 @@ func main() {
 		os.Exit(execfam.ReplayExec(os.Args[3]))
 	}
 	switch os.Args[1] {
+	case "C15":
+		tier := "quick"
+		if len(os.Args) > 2 {
+			tier = os.Args[2]
+		}
+		os.Exit(loadfam.CheckC15(tier))
 	case "C04", "C05", "C12":
 		tier := "quick"
 		if len(os.Args) > 2 {
